@@ -8,8 +8,8 @@ CLAIMED = True
 MODEL_GROUP = "sched"
 THEOREM_FILE = "Props/C12.v"
 # statements other layers' models contribute to this property (same rules as Props/C12.v)
-EXTRA_THEOREM_FILES = ["Props/C12Cache.v"]
-PARAMS = ["sched", "life"]
+EXTRA_THEOREM_FILES = ["Props/C12Cache.v", "Props/C12Registry.v"]
+PARAMS = ["sched", "life", "registry"]
 LEVEL_TEXT = ("Coq theorems over a Gallina model of the daemon's scheduling core, by an invariant over ALL histories of "
               "API calls and iteration times (no assumption on the schedule): in every reachable state every pending "
               "query retransmission, every hostname-resolution deadline and the next interface check has a timer at "
@@ -22,7 +22,9 @@ LEVEL_TEXT = ("Coq theorems over a Gallina model of the daemon's scheduling core
               "histories of the daemon-level cache model of C11 extended with the timers the daemon pushes per record): "
               "whenever a refresh query (80/85/90/95 % mark), an expiry with its removal event, or the one-second "
               "expiry after a cache-flush / goodbye is due at time t, the timer set holds t; granted the wake-up it "
-              "asks for, the daemon does that work at its due time")
+              "asks for, the daemon does that work at its due time. Registry layer (Props/C12Registry.v, daemon model of "
+              "the probing registry): a pending probe step, announcement repeat or goodbye repeat at time t implies the "
+              "model's due work is at most t, and no iteration leaves overdue work behind, over all histories")
 TECHNIQUE = ("machine-checked proof in Coq (inductive invariant of a state-machine model over all histories) + "
              "model/implementation correspondence")
 LEVELS = ("K6 (real ServiceDaemon + daemon thread under verif-hooks; the gate reports the earliest timer at every "
@@ -48,9 +50,11 @@ PARTIAL = ("time-driven work covered by theorems: query retransmissions, hostnam
            "check (scheduler model), record refresh and expiry with their events and the cache-flush / goodbye second "
            "(cache model, Props/C12Cache.v: its per-record timer log is a model of the pushes in handle_response / "
            "refresh_active_services; the real heap is only observed through the requested wake-up, compared in the "
-           "timer-exact K6 runs of C11 and by the exact-vs-dense comparison here). Probe steps, announcement repeats, "
-           "goodbye repeats, verify deadlines and follow-up queries need the registry / browser layers: for those the "
-           "check has no theorem yet; it runs the model-free exact-vs-dense comparison (tools/props/wakediff.py: two "
+           "timer-exact K6 runs of C11 and by the exact-vs-dense comparison here), probe steps, announcement repeats and "
+           "goodbye repeats (registry daemon model, Props/C12Registry.v: the model has no heap of its own, its wake-up "
+           "request is its due work; the real daemon's requested wake-up is held against it by chk_C07 code 34 and "
+           "chk_C09 code 4 on every K6 run). Verify deadlines and follow-up queries need the browser layer: for those "
+           "the check has no theorem; for all layers it also runs the model-free exact-vs-dense comparison (tools/props/wakediff.py: two "
            "identical daemons, one woken exactly as asked, one more often; the exact one must never act later) and a "
            "bound on iterations per second, as search support. 'Number of iterations "
            "per unit of virtual time' is proved as: every wake-up moves strictly forward (a stale timer of a stopped "
